@@ -183,9 +183,11 @@ CLAIMED = {
              "'..' chains, 2-/3-/4-byte characters at slicing offsets, 300-character names, 60-deep paths) into every Memfs method under catch_unwind, "
              "each followed by a probe call showing the instance is still usable and its lock not poisoned. 'Bounded time' is carried by "
              "explicit fuel in the mirror: move_p and remove_all are proved to finish within 2 * entries + 2 iterations from every well-formed "
-             "state (move_op_terminates, remove_all_op_terminates), expand's scanner within the length of its input; the state after any call is "
-             "proved well formed again (usable-after). Partial: for the entries traversal (and copy / chmod / chown, which run on it) the fuel "
-             "bound is exercised (an OutOfFuel outcome would be a mismatch; wall-clock limit in the harness), not yet a theorem.",
+             "state (move_op_terminates, remove_all_op_terminates), a traversal that does not follow links within three machine steps per entry, "
+             "and hence EVERY call of the alphabet that does not ask to follow links within its fuel (step_terminates: listings, entries, copy, "
+             "chmod, chown, mkfile_m included); expand's scanner within the length of its input; the state after any call is proved well formed "
+             "again (usable-after). Partial: for entries / copy / chmod / chown WITH follow the fuel bound is exercised (an OutOfFuel outcome "
+             "would be a mismatch; wall-clock limit in the harness), not a theorem.",
         note="Trusted: Coq kernel; the mirror's Panic outcome marks every unwrap / index / slice of the modelled functions (hand-written, tied by "
              "the correspondence); extraction, driver, harness, differ.",
         technique="Coq proof (no Panic outcome by case analysis over every operation) + adversarial correspondence under catch_unwind",
